@@ -251,7 +251,10 @@ func init() {
 			}
 			for _, c := range m.cls {
 				c.h.Stub.Answers = nil
+				c.h.Stub.Pushes = nil
 			}
+			pubs0 := len(m.sys.Broker.Snapshot())
+			writes0 := len(m.sys.DB.Writes)
 			if sa.E2.SyncType == "realtime" {
 				m.sys.Broker.Auto = true
 			}
@@ -297,6 +300,73 @@ func init() {
 			atEnd := func() *pt.Violation {
 				for _, o := range sa.AtEnd {
 					m.oracles[o] = true
+				}
+				if has(sa.AtEnd, "announced") {
+					// every pack that carried operations and was accepted is announced exactly once, on the topic of its collection and
+					// key, with the pusher's id, the datatype id and the end of the log its answer reported - in whatever order; nothing
+					// else is published (checked before any closing sync)
+					// (what was stored is read from the database's write log: one insert command into the operations collection = one push
+					// that stored operations; a request that re-sends acknowledged operations, or a subscriber's discarded provisional
+					// operation, stores nothing and is not announced)
+					want := map[string]int{}
+					store := m.readStore()
+					collName := map[int32]string{}
+					for _, cd := range m.sys.DB.Docs(schema.CollectionNameCollections) {
+						n, _ := getS(cd, "_id")
+						if num, ok := getV(cd, "num").(int32); ok {
+							collName[num] = n
+						}
+					}
+					type grp struct {
+						duid, cuid string
+						max        uint64
+					}
+					groups := map[int]*grp{}
+					var order []int
+					for _, wr := range m.sys.DB.Writes[writes0:] {
+						if wr.Cmd != "insert" || wr.Coll != schema.CollectionNameOperations || wr.Doc == nil {
+							continue
+						}
+						g := groups[wr.N]
+						if g == nil {
+							g = &grp{}
+							groups[wr.N] = g
+							order = append(order, wr.N)
+						}
+						g.duid, _ = getS(wr.Doc, "duid")
+						g.cuid, _ = getS(getD(wr.Doc, "id"), "cuid")
+						if s := asU64(getV(wr.Doc, "sseq")); s > g.max {
+							g.max = s
+						}
+					}
+					for _, n := range order {
+						g := groups[n]
+						dt := store[g.duid]
+						if dt == nil {
+							continue
+						}
+						// committed: the recorded end of the log covers it and the operation is still the one at its place (an
+						// insert whose commit failed half-way - e.g. its caller gave up - is not a stored push: the next push
+						// overwrites it)
+						if dt.end < g.max || int(g.max) > len(dt.ops) || dt.ops[g.max-1].cuid != g.cuid {
+							continue
+						}
+						want[collName[dt.colNum]+"/"+dt.key+" "+canonJSON(jsonStr(model.Notification{CUID: g.cuid, DUID: g.duid, Sseq: g.max}))]++
+					}
+					got := map[string]int{}
+					for _, p := range m.sys.Broker.Snapshot()[pubs0:] {
+						got[p.Topic+" "+canonJSON(p.Payload)]++
+					}
+					for k, n := range want {
+						if got[k] != n {
+							return viol("C18:push-not-announced", "accepted push %s was announced %d times (expected %d); published: %v; schedule %v", k, got[k], n, got, x.trace)
+						}
+					}
+					for k, n := range got {
+						if want[k] != n {
+							return viol("C18:unexpected-notification", "notification %s published %d times, %d accepted pushes match it; schedule %v", k, n, want[k], x.trace)
+						}
+					}
 				}
 				if has(sa.AtEnd, "serial") && len(serial) > 0 {
 					// before any closing sync: answers and stored log state equal those of SOME one-at-a-time order. Not judged
